@@ -199,6 +199,8 @@ def ob_init_kill(w, P):
         cl.append(('C07,C03', 'and its count matches what iteration finds', EqR(zv(n), len(keys))))
         one = c2.get(1, default=None) if kind in ('cache', 'fanout') else None
         cl.append(('C07', 'the item of the killed process is there in full or not at all', True if one is None else (EqR(zv(one), 2) if is_num_like(one) else False)))
+        if kind == 'fanout':
+            cl.append(('C07,C13', 'the default total size limit is still divided among the shards', AndL(EqR(zv(sh.size_limit), 2 ** 30 // 2) for sh in c2._shards)))
         if P.get('check', True) and kind != 'fanout':
             cl.append(('C07,C17', 'and check() finds nothing wrong', len(c2.check()) == 0))
     except Exception as e:
@@ -284,6 +286,129 @@ def ob_settings_handles(w, P):
     flag('nontrivial')
     return cl
 
+def ob_reopen_race(w, P):
+    """a handle is (re)opened -- Cache(directory), Index(directory) or an unpickled copy -- on a directory that is in use: the
+    real __init__ is interrupted at a symbolic event by another client's complete committed write (insert of a new key,
+    replacement, or removal).  Opening never writes back anything it read earlier: afterwards the item count, the size
+    counter and the contents are those of the committed writes, for every handle and for a later reopen."""
+    L = w.L
+    core = L.core
+    w.clock_fn = lambda: 1000.0
+    cl = []
+    kind = P.get('kind', 'cache')
+    a0 = core.Cache(w.dir, eviction_policy='none')
+    a0.set(1, 11)
+    a0.set(2, 22)
+    v = w.int('val', -2 ** 30, 2 ** 30)
+    opB = P['b']
+    res = {}
+
+    def intruder():
+        w.tid, old = 2, w.tid
+        try:
+            if opB == 'insert':
+                res['ret'] = a0.set(3, v)
+            elif opB == 'replace':
+                res['ret'] = a0.set(1, v)
+            elif opB == 'delete':
+                res['ret'] = a0.delete(2)
+            elif opB == 'pop':
+                res['ret'] = a0.pop(2) is not None
+            elif opB == 'incr':
+                res['ret'] = a0.incr(1, 1) is not None
+        finally:
+            w.tid = old
+    w.interfere_at = w.int('at', 0, P.get('max_events', 90))
+    w.interfere_hook = intruder
+    w.start_events()
+    if kind == 'cache':
+        b = core.Cache(w.dir)
+    elif kind == 'index':
+        b = L.persistent.Index(w.dir).cache
+    elif kind == 'unpickle':
+        b = core.Cache.__new__(core.Cache)
+        b.__setstate__(a0.__getstate__())
+    w.stop_events()
+    if 'ret' not in res:
+        flag('nontrivial')
+        return [('C18', 'uninterrupted', True)]
+    flag('interleaved')
+    expected = {1: 11, 2: 22}
+    if opB == 'insert':
+        expected[3] = v
+    elif opB == 'replace':
+        expected[1] = v
+    elif opB in ('delete', 'pop'):
+        del expected[2]
+    elif opB == 'incr':
+        expected[1] = 12
+    cl.append(('C18,C05', "the other client's write during the open succeeded", res['ret'] is True))
+    for h, nm in ((a0, 'writing'), (b, 'newly opened'), (core.Cache(w.dir), 'later')):
+        ok = [EqR(zv(len(h)), len(expected))]
+        for k_ in (1, 2, 3):
+            got = h.get(k_, default=None)
+            if k_ in expected:
+                ok.append(EqR(zv(got), zv(expected[k_])) if is_num_like(got) else False)
+            else:
+                ok.append(got is None)
+        cl.append(('C18,C05,C12', 'the %s handle counts and returns exactly the committed items' % nm, AndL(ok)))
+    T = w.snapshot(core.Cache(w.dir))
+    from symdc import state as _state
+    cl.append(('C18,C08', 'stored counters match the rows', _state.inv_table(T)))
+    flag('nontrivial')
+    return cl
+
+def ob_reopen_busy(w, P):
+    """a directory created with non-default settings is opened while another client holds a lock that blocks every statement,
+    reads included (exclusive locking mode, recovery, a journal-mode switch), for k attempts of one statement of the open
+    (which statement: symbolic): the open waits, and the stored settings and items are what they were -- for the new handle
+    and for every later one"""
+    L = w.L
+    core = L.core
+    w.clock_fn = lambda: 1000.0
+    cl = []
+    a0 = core.Cache(w.dir, cull_limit=3, size_limit=12345678, statistics=1, eviction_policy='least-frequently-used', disk_min_file_size=7)
+    a0.set(1, 11)
+    a0.create_tag_index()
+    at = w.int('busy_at', 0, P.get('max_statements', 14))
+    kk = w.int('busy_k', 1, 2)
+    n = [0]
+    fails = [0]
+
+    def hook(con, sql):
+        i = n[0]
+        if bool(at == i) and bool(fails[0] < kk):
+            fails[0] += 1
+            flag('statement_blocked')
+            return True
+        n[0] += 1
+        return False
+    w.set_busy_all_hook(a0, hook)
+    w.start_events()
+    kind = P.get('kind', 'cache')
+    if kind == 'cache':
+        b = core.Cache(w.dir)
+    elif kind == 'unpickle':
+        b = core.Cache.__new__(core.Cache)
+        b.__setstate__(a0.__getstate__())
+    else:
+        b = L.persistent.Index(w.dir).cache
+    b.get(1)
+    w.stop_events()
+    w.set_busy_all_hook(a0, None)
+
+    def same(p, q):
+        return EqR(zv(p), zv(q)) if is_num_like(p) and is_num_like(q) else p == q
+    for h, nm in ((b, 'handle opened under the lock'), (core.Cache(w.dir), 'later handle')):
+        if kind == 'index' and nm.startswith('handle'):
+            continue  # Index(directory) passes eviction_policy='none' itself
+        cl.append(('C18,C14', 'the %s has the stored settings' % nm,
+                   And(same(h.cull_limit, 3), same(h.size_limit, 12345678), same(h.statistics, 1), h.eviction_policy == ('least-frequently-used' if kind != 'index' else 'none'),
+                       same(h.disk_min_file_size, 7), same(h.tag_index, 1), same(h.disk.min_file_size, 7))))
+        cl.append(('C18', 'and the stored item', same(h.get(1), 11)))
+    flag('nontrivial')
+    return cl
+
 def jobs(tier):
     out = []
     F = ['core.Cache.__init__', 'core.Cache._con', 'core.Cache.reset', 'core.Cache.close', 'core.Cache.__getstate__', 'core.Cache.__setstate__']
@@ -297,6 +422,13 @@ def jobs(tier):
     for fan in (False, True):
         out.append(dict(id='persist.settings.handles%s' % ('.fanout' if fan else ''), func='ob_settings_handles', params=dict(fanout=fan), tags=['C18'], functions=F + ['core.Cache.create_tag_index', 'core.Cache.drop_tag_index', 'fanout.FanoutCache.reset'],
                         weight=10, twin=False))
+    for kind in ('cache', 'index', 'unpickle'):
+        for b in (('insert', 'delete') if tier == 'quick' and kind != 'cache' else ('insert', 'replace', 'delete', 'pop', 'incr')):
+            out.append(dict(id='reopen.race.%s.%s' % (kind, b), func='ob_reopen_race', params=dict(kind=kind, b=b), tags=['C18', 'C05', 'C12', 'C08'], functions=F + ['core.Cache.set', 'core.Cache.delete'],
+                            weight=15, twin=False, must_reach=['interleaved']))
+    for kind in ('cache', 'unpickle', 'index'):
+        out.append(dict(id='reopen.busy.%s' % kind, func='ob_reopen_busy', params=dict(kind=kind), tags=['C18', 'C14'], functions=F + ['core.Cache._sql_retry'], weight=10, twin=False,
+                        must_reach=['statement_blocked']))
     out.append(dict(id='init.race', func='ob_init_race', params={}, tags=['C18', 'C05'], functions=F + ['core.Cache._sql_retry'], weight=30, twin=False, must_reach=['interleaved']))
     for k in ('cache', 'fanout', 'index', 'deque'):
         out.append(dict(id='init.kill.%s' % k, func='ob_init_kill', params=dict(kind=k), tags=['C07', 'C18'], functions=F + ['core.Cache._sql_retry'], weight=30, twin=False,
